@@ -327,7 +327,9 @@ var litAlphabet = []string{"0", "1", "9", ".", "e", "E", "+", "-", "_", "x"}
 
 var litEmbeds = []string{"[%s]", "f(%s)", "%s + 1", "1 + %s", "a ? %s : 1", "-%s", "(%s).k", "f(1, %s)", "a ? 1 : %s", "$v = %s", "typeof %s", "(%s)", "true ? %s : 0", "(0, %s)",
 	// set tightly: the literal directly behind '?', ':', ',', an operator or a bracket
-	"(true?%s:0)", "(false?0:%s)", "(0,%s)", "(null??%s)", "(%s)", "(true?%s:%s)", "a?%s:1", "[1,%s]", "f(%s,%s)", "1+%s", "!%s", "-%s", "1-%s", "a&&%s", "a||%s", "a??%s", "a?1:%s"}
+	"(true?%s:0)", "(false?0:%s)", "(0,%s)", "(null??%s)", "(%s)", "(true?%s:%s)", "a?%s:1", "[1,%s]", "f(%s,%s)", "1+%s", "!%s", "-%s", "1-%s", "a&&%s", "a||%s", "a??%s", "a?1:%s",
+	// behind a member access whose name stands on the next line (the parser looks ahead there), and behind a rejected look-ahead
+	"row.\nqty + %s", "a.\nb(%s)", "[o!.\nk, %s]", "x.\ny.\nz == %s"}
 
 // embeddings that leave the literal's value as the element's value
 var litValueEmbeds = map[string]bool{"(%s)": true, "true ? %s : 0": true, "(0, %s)": true, "$v = %s": true, "(true?%s:0)": true, "(false?0:%s)": true, "(0,%s)": true, "(null??%s)": true, "(true?%s:%s)": true}
